@@ -90,7 +90,11 @@ func check(c Case) (pbt.Info, error) {
 					return fmt.Errorf("%s step %d %s: Values()=%v lists %d, which is not a member", names[si], step, what, sortedIf(si, vals), v)
 				}
 			}
-			for x := -1; x <= domainHi+1; x++ {
+			stride := 1
+			if domainHi > 100 {
+				stride = 7
+			}
+			for x := -1; x <= domainHi+1; x += stride {
 				want := exact[x]
 				if isCoarse {
 					want = coarse[x>>1]
@@ -186,6 +190,10 @@ func sortedIf(si int, vals []int) []int {
 }
 
 func vals(t *rapid.T, label string, maxN int) []int {
+	if rapid.IntRange(0, 11).Draw(t, "long-variadic") == 0 {
+		// far more arguments than members: 8..40 values (duplicates guaranteed in a 9-value domain)
+		return rapid.SliceOfN(rapid.IntRange(0, domainHi), 8, 40).Draw(t, label)
+	}
 	return rapid.SliceOfN(rapid.IntRange(0, domainHi), 0, maxN).Draw(t, label)
 }
 
@@ -213,10 +221,24 @@ func gen(t *rapid.T) Case {
 // reach depth-4 shapes and the rarely taken deletion cases of the red-black tree.
 func genLarge(t *rapid.T) Case {
 	c := Case{Hi: 47}
+	huge := rapid.IntRange(0, 5).Draw(t, "huge") == 0
+	if huge {
+		c.Hi = 420 // hundreds of members
+	}
 	v := func(label string, maxN int) []int {
+		if huge && rapid.IntRange(0, 3).Draw(t, "many-args") == 0 {
+			return rapid.SliceOfN(rapid.IntRange(0, c.Hi), 9, 40).Draw(t, label)
+		}
 		return rapid.SliceOfN(rapid.IntRange(0, c.Hi), 0, maxN).Draw(t, label)
 	}
 	c.Init = v("init", 20)
+	if huge {
+		n := rapid.IntRange(150, 400).Draw(t, "fill")
+		start := rapid.IntRange(0, c.Hi).Draw(t, "fillstart")
+		for i := 0; i < n; i++ {
+			c.Init = append(c.Init, (start+i*11)%(c.Hi+1))
+		}
+	}
 	for chunk := 0; chunk < 4; chunk++ {
 		ops := rapid.SliceOfN(rapid.Custom(func(t *rapid.T) Op {
 			switch dom.Weighted(t, "op", 45, 45, 1, 9) {
@@ -237,5 +259,5 @@ func genLarge(t *rapid.T) Case {
 
 func TestGenerated(t *testing.T) {
 	pbt.Run(t, pbt.Target[Case]{Name: "all-sets", Checks: 40000, Gen: gen, Check: check})
-	pbt.Run(t, pbt.Target[Case]{Name: "all-sets/large-domain", Checks: 6000, Gen: genLarge, Check: check})
+	pbt.Run(t, pbt.Target[Case]{Name: "all-sets/large-domain", Checks: 3000, Gen: genLarge, Check: check})
 }
